@@ -23,6 +23,19 @@ def _first_call_is_check_fitted(st):
     return bool(cs) and cs[0][2] == "check_is_fitted" and cs[0][3][:1] == (SELF,)
 
 
+_FULL_PRECISION = (fx.C(None), fx.C("numeric"), ("attr", ("global", "np"), "float64"), ("builtin", "float"), ("attr", ("global", "np"), "double"))
+
+
+def _validated_as_is(t):
+    """t is check_array(X, ...) of the caller's X with options that validate but do not change the values: in particular no
+    conversion to a narrower dtype (float32 routing of float64 thresholds sends rows next to a threshold to the wrong side)"""
+    if not (isinstance(t, tuple) and t[:1] == ("callres",) and t[2] in ("check_array", "validate_data") and t[3] and t[3][-1 if t[2] == "validate_data" and len(t[3]) > 1 else 0] == ("var", "X")):
+        return False
+    kw = dict(t[4])
+    return kw.get("dtype", fx.C("numeric")) in _FULL_PRECISION or (
+        isinstance(kw.get("dtype"), tuple) and kw["dtype"][0] in ("list", "tuple") and kw["dtype"][1] and kw["dtype"][1][0] in _FULL_PRECISION)
+
+
 def obligations():
     from gemclus.linear import KernelRIM
     from gemclus.tree import Kauri
@@ -44,7 +57,7 @@ def obligations():
                 ob(cls, "predict_proba", "== _infer(_compute_kernel(X))", good, {"ret": fx.show(v)})
             else:
                 good = (v[:1] == ("callres",) and v[2] == "self._infer" and len(v[3]) == 1
-                        and v[3][0][:1] == ("callres",) and v[3][0][2] == "check_array" and v[3][0][3] == (("var", "X"),)
+                        and _validated_as_is(v[3][0])
                         and dict(v[4]).get("retain") == fx.C(False))
                 ob(cls, "predict_proba", "== _infer(check_array(X), retain=False)", good, {"ret": fx.show(v)})
                 ob(cls, "predict_proba", "check_is_fitted(self) first", _first_call_is_check_fitted(st))
@@ -139,7 +152,7 @@ def obligations():
     it, rets, allp = _one_return(Kauri, "predict", lambda o, m: False)
     for st in rets:
         v = st.ret
-        good = (v[:1] == ("callres",) and v[2] == "self.tree_.predict" and len(v[3]) == 1 and v[3][0][2] == "check_array")
+        good = (v[:1] == ("callres",) and v[2] == "self.tree_.predict" and len(v[3]) == 1 and _validated_as_is(v[3][0]))
         ob(Kauri, "predict", "== tree_.predict(check_array(X))", good, {"ret": fx.show(v)})
         ob(Kauri, "predict", "check_is_fitted(self) first", _first_call_is_check_fitted(st))
     # Kauri.score: the compiled kernel-KMeans objective of the predicted labels (it sums over the clusters PRESENT in the batch)
